@@ -28,9 +28,10 @@ from __future__ import annotations
 import asyncio
 import errno as _errno
 import logging
+import os
 import sys
 
-sys.path.insert(0, "/repo")
+sys.path.insert(0, os.environ.get("VERIF_REPO", "/repo"))
 
 from goodwe.exceptions import InverterError, RequestFailedException, RequestRejectedException, MaxRetriesException  # noqa: E402
 from goodwe.protocol import (Aa55ProtocolCommand, Aa55ReadCommand, Aa55WriteCommand, Aa55WriteMultiCommand,  # noqa: E402
@@ -101,11 +102,37 @@ class Peer:
     def __init__(self, sc: dict):
         self.sc = sc
         self.n = 0
+        self.per_req: dict[int, int] = {}
+        # request index by register (programs use one distinct register per request)
+        self.reg2req: dict[int, int] = {}
+        k = 0
+        for callers in sc["epochs"]:
+            for c in callers:
+                for step in c["prog"]:
+                    if step["do"] == "req":
+                        self.reg2req.setdefault(step.get("reg", -1 - k), k)
+                        k += 1
+
+    def _fault(self, data: bytes) -> dict:
+        sc = self.sc
+        dflt = sc.get("dflt", {"k": "drop"})
+        if "rfaults" in sc:
+            p = F.parse_request(sc["fr"], data) or {}
+            reg = p.get("reg")
+            if reg is None and sc["fr"] == "aa55" and p.get("payload") and len(p["payload"]) >= 2:
+                reg = int.from_bytes(p["payload"][0:2], "big")
+            ri = self.reg2req.get(reg, 0)
+            lst = sc["rfaults"][ri] if ri < len(sc["rfaults"]) else []
+            n = self.per_req.get(ri, 0)
+            self.per_req[ri] = n + 1
+            return lst[n] if n < len(lst) else dflt
+        faults = sc.get("faults", [])
+        f = faults[self.n] if self.n < len(faults) else dflt
+        return f
 
     def __call__(self, tr, data: bytes):
         sc = self.sc
-        faults = sc.get("faults", [])
-        f = faults[self.n] if self.n < len(faults) else sc.get("dflt", {"k": "drop"})
+        f = self._fault(data)
         self.n += 1
         k = f["k"]
         d = f.get("d", 0)
@@ -138,6 +165,9 @@ class Peer:
         elif k == "ansg":
             tr.deliver(ans, d, "ans")
             tr.deliver(GARBAGE, d, "garbage")
+        elif k == "gans":
+            tr.deliver(GARBAGE, d, "garbage")
+            tr.deliver(ans, d, "ans")
         elif k in ("frag", "lone"):
             split = f.get("split", 9)
             split = max(1, min(split, len(ans) - 1))
@@ -167,6 +197,16 @@ class Peer:
             tr.peer_close(d, OSError(err, "reset") if err else None)
         elif k == "eof":
             tr.peer_close(d, None, eof=True)
+        elif k == "anserr":
+            # a valid answer, then an OS-level error on the same transport (request already done)
+            tr.deliver(ans, d, "ans")
+            err = f.get("err", _errno.ECONNREFUSED)
+            exc = ConnectionRefusedError(err, "refused") if err == _errno.ECONNREFUSED else OSError(err, "os error")
+            d2 = f.get("d2", d)
+            if tr.kind == "udp":
+                tr.send_error(exc, d2)
+            else:
+                tr.peer_close(d2, exc)
         elif k == "err":
             err = f.get("err", _errno.ECONNREFUSED)
             exc = ConnectionRefusedError(err, "refused") if err == _errno.ECONNREFUSED else OSError(err, "os error")
